@@ -98,6 +98,16 @@ def _raw_vals(x, y, n_bits):
         return x_val.astype(object), y_val.astype(object)
     return x_val.astype(np.int64), y_val.astype(np.int64)
 
+def _repr_val(x):
+    """
+    Value of `x` for calculations with the 'repr' method. Unsigned integer values (integer formats keep their raw uint64 codes)
+    are returned as signed integers, so a negative difference doesn't wrap around modulo 2**64.
+    """
+    val = x.get_val()
+    if isinstance(val, (np.ndarray, np.generic)) and val.dtype.kind == 'u':
+        val = val.astype(np.int64) if x.n_word < _n_word_max else val.astype(object)
+    return val
+
 def _function_over_one_var(repr_func, raw_func, x, out=None, out_like=None, sizing='optimal', method='raw', optimal_size=None, **kwargs):
     if not isinstance(x, Fxp):
         x = Fxp(x)
@@ -181,7 +191,7 @@ def _function_over_two_vars(repr_func, raw_func, x, y, out=None, out_like=None, 
 
     if method == 'repr' or x.scaled or n_frac is None:
         raw = False
-        val = repr_func(x.get_val(), y.get_val(), **kwargs)
+        val = repr_func(_repr_val(x), _repr_val(y), **kwargs)
     elif method == 'raw':
         raw = True
         kwargs['n_frac'] = n_frac
